@@ -62,72 +62,7 @@ Definition k_compound_member_target (prog : node) : bool :=
                      | None => false
                      end) prog.
 
-(** K3: optional chains.  The optional-chain visitor, once it has found a chain that ends in a
-    configured method call, rewrites *every* optional link it meets afterwards -- also links
-    inside call arguments or computed keys -- and guards the whole expression on the last one.
-    The class: an optional-chain expression that contains such a target and has an optional
-    link off its spine (above the first optional link of the spine). *)
-Definition optchain_view (e : node) : option (bool * node) :=
-  match e with
-  | Node (K KOptChain _ _) [Node (Bln optional) []; base] => Some (optional, base)
-  | _ => None
-  end.
-
-Definition is_optional_link (n : node) : bool :=
-  match optchain_view n with Some (true, _) => true | _ => false end.
-
-Definition has_optional (n : node) : bool := any_node is_optional_link n.
-
-Definition is_oc_target (names : list string) (e : node) : bool :=
-  match optchain_view e with
-  | Some (false, Node (K KCall _ _) [_; callee; _; _]) =>
-      match optchain_view callee with
-      | Some (_, Node (K KMember _ _) [_; prop]) =>
-          match ident_name_sym prop with
-          | Some name => existsb (String.eqb name) names
-          | None => false
-          end
-      | _ => false
-      end
-  | _ => false
-  end.
-
-(** Is there a target on the spine of [n] (the chain of base / callee / object links)? *)
-Fixpoint spine_target (names : list string) (n : node) : bool :=
-  match n with
-  | Node (K KOptChain _ _) [_; base] => is_oc_target names n || spine_target names base
-  | Node (K KCall _ _) [_; callee; _; _] => spine_target names callee
-  | Node (K KMember _ _) [obj; _] => spine_target names obj
-  | _ => false
-  end.
-
-(** Optional links in arguments / keys hanging off the spine, from the top down to the first
-    optional link at or below the topmost target of the spine (where the visitor stops). *)
-Fixpoint spine_off (names : list string) (found : bool) (n : node) : bool :=
-  match n with
-  | Node (K KOptChain _ _) [Node (Bln optional) []; base] =>
-      let found' := found || is_oc_target names n in
-      if found' && optional then false else spine_off names found' base
-  | Node (K KCall _ _) [_; callee; args; _] => has_optional args || spine_off names found callee
-  | Node (K KMember _ _) [obj; prop] => has_optional prop || spine_off names found obj
-  | _ => false
-  end.
-
-Definition strictly_inside (P : node -> bool) (n : node) : bool :=
-  match n with Node _ cs => existsb (any_node P) cs end.
-
-Definition oc_defect (names : list string) (e : node) : bool :=
-  if spine_target names e then spine_off names false e
-  else strictly_inside (is_oc_target names) e.
-
-Definition k_optchain_offspine (names : list string) (prog : node) : bool :=
-  any_node (fun e => match optchain_view e with
-                     | Some _ => oc_defect names e
-                     | None => false
-                     end) prog.
-
 (** Names of the classes that apply to a program ([names] = configured method source names). *)
 Definition known_classes (names : list string) (prog : node) : list string :=
   (if k_compound_target_instrumentable prog then ["compound-target-instrumentable"] else []) ++
-  (if k_compound_member_target prog then ["compound-member-target"] else []) ++
-  (if k_optchain_offspine names prog then ["optchain-offspine"] else []).
+  (if k_compound_member_target prog then ["compound-member-target"] else []).
